@@ -79,7 +79,7 @@ impl Display for TokenType {
             // decoded text are shown escaped
             TokenType::String(s) => write!(f, "STRING({})", s.escape_debug()),
             TokenType::Char(c) => write!(f, "CHAR({})", c.escape_debug()),
-            TokenType::Comment(s) => write!(f, "COMMENT{s}"),
+            TokenType::Comment(s) => write!(f, "COMMENT{}", s.escape_debug()),
             TokenType::Newline => write!(f, "NEWLINE"),
             TokenType::LParen => write!(f, "LPAREN"),
             TokenType::RParen => write!(f, "RPAREN"),
